@@ -187,9 +187,9 @@ Section Safety.
         destruct (rnr_safe _ _ _ _ _ _ Inv Eo En Rn) as [X|X]; [left; exact X|].
         destruct st1.
         * destruct (deliver_safe _ _ _ _ _ _ _ X R) as [D0 D1]. subst st. right. exact D1.
-        * inversion R; subst. right. split; [reflexivity|exact X].
-        * inversion R; subst. right. reflexivity.
-      + inversion R; subst. right. split; [reflexivity|].
+        * inversion R as [[R1 R2 R3]]; subst s' o st. right. split; [reflexivity|exact X].
+        * inversion R as [[R1 R2 R3]]; subst s' o st. right. reflexivity.
+      + inversion R as [[R1 R2 R3]]; subst s' o st. right. split; [reflexivity|].
         destruct Inv as (done & suf & E1 & E2 & E3). rewrite En in E3. subst suf.
         rewrite Eo, app_nil_r in E2. rewrite E1, app_nil_r. exact E2.
     - destruct (deliver_safe _ _ _ _ _ _ _ Inv R) as [D0 D1]. subst st. right. exact D1.
@@ -202,16 +202,16 @@ Section Safety.
     \/ Collision H.
   Proof.
     induction sizes as [|k t IH]; intros s acc out st Inv T.
-    - cbn [read_trace] in T. inversion T; subst. left.
+    - cbn [read_trace] in T. inversion T as [[T1 T2]]; subst out st. left.
       split; [exact (safe_prefix _ _ _ Inv)|discriminate].
     - rewrite read_trace_cons in T.
       destruct (read H s k) as [[s1 o] st1] eqn:R.
       destruct (read_safe _ _ _ _ _ _ _ Inv R) as [X|X]; [right; exact X|].
       destruct st1.
       + exact (IH _ _ _ _ X T).
-      + destruct X as [X1 X2]. inversion T; subst. left. rewrite app_nil_r.
-        split; [exists []; rewrite app_nil_r; reflexivity|reflexivity].
-      + inversion T; subst. left. rewrite app_nil_r.
+      + destruct X as [X1 X2]. inversion T as [[T1 T2]]; subst out st o. left. rewrite app_nil_r.
+        split; [exists []; rewrite app_nil_r; symmetry; exact X2|intros _; exact X2].
+      + inversion T as [[T1 T2]]; subst out st o. left. rewrite app_nil_r.
         split; [exact (safe_prefix _ _ _ Inv)|discriminate].
   Qed.
 
@@ -264,7 +264,8 @@ Section Safety.
   Proof.
     intros P C D. unfold decode_all in D.
     destruct (new_decoder H d s dg maxrs) as [s0| | |] eqn:N; try discriminate.
-    cbn [bind] in D. inversion D as [D1]. rewrite read_all_trace in D1.
+    cbn [bind] in D. rewrite read_all_trace in D.
+    assert (D1 : read_trace H s0 (repeat k (S (S (List.length s)))) [] = (out, st)) by congruence.
     exact (decoder_releases_only_committed _ _ _ _ _ _ _ _ _ _ P C N D1).
   Qed.
 
